@@ -198,39 +198,102 @@ def classify_error(e):
 # reading the real files without the code under test
 # ---------------------------------------------------------------------------
 
+H5_DATASETS = {
+    'directlyAssigned': 'directly_assigned', 'intToNode': 'int_to_node',
+    'cellId': 'cell_id', 'assignment': 'assignment',
+    'prob': 'bootstrapping_probability', 'agg': 'aggregate_probability',
+    'corr': 'average_correlation'}
+H5_RUNNER_DATASETS = {'asg': 'runner_up_assignment',
+                      'prob': 'runner_up_probability',
+                      'corr': 'runner_up_correlation'}
+
+
 def read_h5_raw(path, st):
-    """the datasets of an output HDF5 file in the model's H5 shape"""
+    """the datasets of an output HDF5 file in the model's H5 shape.  Never
+    raises on a missing / extra / mis-shaped dataset: those are listed in
+    'problems' as (dataset name, what) and the field is None."""
     import h5py
 
     def nums(arr):
         return [num_json(float(x)) for x in arr]
 
-    with h5py.File(path, 'r') as src:
+    def mat(conv):
+        return lambda a: [conv(r) for r in _need_dim(a, 2)]
+
+    def cube(conv):
+        return lambda a: [[conv(r) for r in cell] for cell in _need_dim(a, 3)]
+
+    def ints(r):
+        return [int(x) for x in r]
+
+    readers = {
+        'directlyAssigned': lambda a: [bool(x) for x in _need_dim(a, 1)],
+        'intToNode': lambda a: [[st.id(k), [st.id(n) for n in v]]
+                                for k, v in json.loads(
+                                    a.decode('utf-8')).items()],
+        'cellId': lambda a: [st.id(c.decode('utf-8'))
+                             for c in _need_dim(a, 1)],
+        'assignment': mat(ints), 'prob': mat(nums), 'agg': mat(nums),
+        'corr': mat(nums)}
+    problems = []
+    try:
+        src = h5py.File(path, 'r')
+    except Exception as e:
+        return {'keys': [], 'meta': None, 'h5': None,
+                'problems': [('<file>', 'cannot be opened: %s'
+                              % classify_error(e))]}
+    with src:
         keys = set(src.keys())
-        meta = json.loads(src['metadata'][()].decode('utf-8'))
+        meta = None
+        try:
+            meta = json.loads(src['metadata'][()].decode('utf-8'))
+        except Exception as e:
+            problems.append(('metadata', 'unreadable: %s'
+                             % classify_error(e)))
         if 'assignment' not in keys:
-            return {'keys': sorted(keys), 'meta': meta, 'h5': None}
-        i2n = json.loads(src['int_to_node'][()].decode('utf-8'))
-        out = {
-            'directlyAssigned': [bool(x) for x in src['directly_assigned'][()]],
-            'intToNode': [[st.id(k), [st.id(n) for n in v]]
-                          for k, v in i2n.items()],
-            'cellId': [st.id(c.decode('utf-8')) for c in src['cell_id'][()]],
-            'assignment': [[int(x) for x in row]
-                           for row in src['assignment'][()]],
-            'prob': [nums(r) for r in src['bootstrapping_probability'][()]],
-            'agg': [nums(r) for r in src['aggregate_probability'][()]],
-            'corr': [nums(r) for r in src['average_correlation'][()]],
-            'runners': None}
-        if 'runner_up_assignment' in keys:
-            out['runners'] = {
-                'asg': [[[int(x) for x in r] for r in cell]
-                        for cell in src['runner_up_assignment'][()]],
-                'prob': [[nums(r) for r in cell]
-                         for cell in src['runner_up_probability'][()]],
-                'corr': [[nums(r) for r in cell]
-                         for cell in src['runner_up_correlation'][()]]}
-    return {'keys': sorted(keys), 'meta': meta, 'h5': out}
+            return {'keys': sorted(keys), 'meta': meta, 'h5': None,
+                    'problems': problems}
+        out = {}
+        for field, name in H5_DATASETS.items():
+            out[field] = None
+            if name not in keys:
+                problems.append((name, 'missing'))
+                continue
+            try:
+                out[field] = readers[field](src[name][()])
+            except Exception as e:
+                problems.append((name, 'mis-shaped / unreadable: %s'
+                                 % classify_error(e)))
+        out['runners'] = None
+        present = [n for n in H5_RUNNER_DATASETS.values() if n in keys]
+        if present:
+            run = {}
+            for field, name in H5_RUNNER_DATASETS.items():
+                run[field] = None
+                if name not in keys:
+                    problems.append((name, 'missing'))
+                    continue
+                try:
+                    run[field] = cube(ints if field == 'asg' else nums)(
+                        src[name][()])
+                except Exception as e:
+                    problems.append((name, 'mis-shaped / unreadable: %s'
+                                     % classify_error(e)))
+            out['runners'] = run
+        known = set(H5_DATASETS.values()) | set(
+            H5_RUNNER_DATASETS.values()) | {'metadata'}
+        for name in sorted(keys - known):
+            problems.append((name, 'unexpected dataset'))
+    return {'keys': sorted(keys), 'meta': meta, 'h5': out,
+            'problems': problems}
+
+
+def _need_dim(a, n):
+    a = np.asarray(a)
+    if a.ndim != n:
+        raise ValueError('expected %d dimensions, got shape %r'
+                         % (n, a.shape))
+    return a
 
 
 def read_csv_raw(path):
@@ -671,7 +734,10 @@ def gen_blob(rng, tree=None, n_cells=None, n_runners=None, inferred=None,
         for lv in h:
             nodes = list(tree[lv].keys())
             p = gen_prob(rng)
-            agg = agg * p
+            if lv not in inferred:
+                # aggregate_probability: running product over the levels
+                # the run voted on (an inferred level is not one of them)
+                agg = agg * p
             lr = {'assignment': rng.choice(nodes),
                   'bootstrapping_probability': p,
                   'avg_correlation': gen_corr(rng)}
@@ -689,6 +755,13 @@ def gen_blob(rng, tree=None, n_cells=None, n_runners=None, inferred=None,
             lr['aggregate_probability'] = agg
             lr['directly_assigned'] = lv not in inferred
             vals[lv] = lr
+        # backfill_assignments: an inferred level is a copy of the level below
+        # it (its numbers included), bottom-up
+        for i in range(len(h) - 2, -1, -1):
+            if h[i] in inferred:
+                below = vals[h[i + 1]]
+                for f in NUM_FIELDS:
+                    vals[h[i]][f] = below[f]
         for lv in order:
             rec[lv] = vals[lv]
         rec['cell_id'] = cid
